@@ -65,7 +65,7 @@ pick different functions, branches or interactions:
 Deliverables, written to {wt}/_out/ (create it): for k = 1..{n}: change{{k}}.diff (output of `git diff` for that change
 alone, applying cleanly to the unchanged tree with `git apply`), demo{{k}}.py, and notes{{k}}.md (3-8 lines: which clause
 breaks, what it needs in order to manifest, what you ran and saw). Verify each yourself: demo passes on the clean tree
-(`git stash` / `git checkout -- src`), fails with the patch, test suite passes with the patch. Leave the worktree clean
+(`git apply -R` / `git checkout -- src`; never `git stash` - the stash is shared by all worktrees of /repo), fails with the patch, test suite passes with the patch. Leave the worktree clean
 (no patch applied) at the end but keep _out/. Do not remove the worktree. Your final message: for each change one line
 `change{{k}}: <needs-to-manifest in <= 25 words> | suite: pass/fail | demo: clean=0 patched=<rc>`.
 If you cannot find a change satisfying all of (1)-(4) for a slot, say so rather than delivering a weak one.""")
